@@ -38,6 +38,7 @@ def run(ctx):
     check_split_model(ctx, prog)
     check_valist(ctx, prog)
     check_search_model(ctx, prog)
+    ctx.floor("C03.inplace", check_inplace_model(ctx, prog), 1)
     import nullret
     nullret.check(ctx, prog, 'C03', ('String.cpp',))
     import litread
@@ -1127,6 +1128,55 @@ def check_parse_back(ctx, prog):
             ctx.check(bad is None, 'C03.parse', f['pq'], role, fwhere(f), 'interpreted on the decimal texts of %d representative values' % len(reps), bad or '')
     ctx.floor('C03.parse conversions interpreted', n, 3)
 
+
+
+def check_inplace_model(ctx, prog):
+    """C03.inplace: replaceme(a, b) - the in-place sibling of replace(char, char) - is interpreted (scansim) on every text over
+    {a, b, c} up to 4 characters sitting in a buffer with stale bytes behind its terminator: afterwards the buffer holds the
+    model's text.replace(a, b) (every position, the first and the last included), the terminator and the stale bytes are
+    untouched, and nothing outside the buffer was accessed."""
+    import scansim, itertools
+    fs = [g for g in prog.fn('asl::String::replaceme', '(char,char)') if g.get('body')]
+    if not fs:
+        return 0
+    f = fs[0]
+    ctx.analysed(f)
+    role = 'replaceme(char,char):the text afterwards is the model\'s replace, byte for byte'
+    bad = und = None
+    runs = 0
+    for L in range(0, 5):
+        for t in itertools.product('abc', repeat=L):
+            text = ''.join(t)
+            for a_, b_ in (('a', 'x'), ('b', 'a'), ('c', 'c'), ('x', 'a')):
+                stale = 'ab'
+                bufs = {'T': [ord(c) for c in text] + [0] + [ord(c) for c in stale]}
+                r = scansim.Run(prog, f, bufs, int_params={f['params'][0]['id']: ord(a_), f['params'][1]['id']: ord(b_)},
+                                call_ptrs={'str': ('P', 'T', 0), 'data': ('P', 'T', 0)}, methods={'*': 'interp'}, mems={'_len': L}, objects=True)
+                runs += 1
+                call = '"%s".replaceme(%r, %r)' % (text, a_, b_)
+                try:
+                    r.run()
+                except scansim.OOB as o:
+                    bad = '%s accesses bytes outside the string: %s' % (call, o)
+                    break
+                except (scansim.Unsupported, TypeError, KeyError, IndexError, ValueError) as u:
+                    und = '%s: %s' % (call, u)
+                    break
+                want = [ord(c) for c in text.replace(a_, b_)] + [0] + [ord(c) for c in stale]
+                if bufs['T'] != want:
+                    got = ''.join(chr(c) if isinstance(c, int) and 32 <= c < 127 else '\\x%02x' % c if isinstance(c, int) else '?' for c in bufs['T'][:L])
+                    bad = '%s leaves "%s", the model gives "%s"%s' % (call, got, text.replace(a_, b_), '' if bufs['T'][L:] == want[L:] else ' (and the terminator or the bytes behind it were changed)')
+                    break
+            if bad or und:
+                break
+        if bad or und:
+            break
+    ctx.evaluations += runs
+    if und and not bad:
+        ctx.info['inplace_replaceme'] = 'outside the interpreted fragment: %s' % und
+        return 0
+    ctx.check(bad is None, 'C03.inplace', f['pq'], role, fwhere(f), 'interpreted on %d (text, a, b) cases' % runs, bad or '')
+    return 1
 
 
 def check_search_model(ctx, prog):
